@@ -328,7 +328,9 @@ impl<'tcx> Cx<'tcx> {
                 // &[u8] / &str / &[u8; N] literals: try to get bytes.
                 if let Ok(cv) = c.const_.eval(self.tcx, env, c.span) {
                     match cv {
-                        ConstValue::Slice { .. } => {
+                        ConstValue::Slice { .. } | ConstValue::Indirect { .. }
+                            if matches!(t.kind(), ty::Ref(_, inner, _) if matches!(inner.kind(), ty::Slice(_) | ty::Str)) =>
+                        {
                             if let Some(bytes) = cv.try_get_slice_bytes_for_diagnostics(self.tcx) {
                                 val = J::Obj(vec![(
                                     "bytes",
